@@ -282,6 +282,7 @@ struct SrvZone {
     big: bool,    // 255-byte TXT strings instead of A
     nns: usize,   // extra in-zone NS with glue at the apex
     signed: bool, // NSEC-signed with a fixed Ed25519 key
+    axfr: bool,   // zone transfers allowed (AXFR family)
 }
 
 #[derive(Clone, Debug)]
@@ -298,7 +299,7 @@ fn build_catalog(z: &SrvZone) -> Catalog {
     let mut zone = InMemoryZoneHandler::<vsim::SimProvider>::empty(
         origin.clone(),
         ZoneType::Primary,
-        AxfrPolicy::Deny,
+        if z.axfr { AxfrPolicy::AllowAll } else { AxfrPolicy::Deny },
         if z.signed { Some(NxProofKind::Nsec) } else { None },
     );
     zone.upsert_mut(
@@ -359,7 +360,7 @@ fn request_bytes(q: &SrvQuery, payload: i32) -> Vec<u8> {
 }
 
 fn srv_json(z: &SrvZone, q: &SrvQuery, payload: i32) -> Value {
-    json!({"server": true, "nrec": z.nrec, "big": z.big, "nns": z.nns, "signed": z.signed,
+    json!({"server": true, "nrec": z.nrec, "big": z.big, "nns": z.nns, "signed": z.signed, "axfr": z.axfr,
            "qname": q.name, "qtype": u16::from(q.qtype), "do": q.dnssec_ok, "payload": payload})
 }
 
@@ -578,6 +579,7 @@ fn main() {
                     big: case["big"].as_bool().unwrap(),
                     nns: case["nns"].as_u64().unwrap_or(0) as usize,
                     signed: case["signed"].as_bool().unwrap_or(false),
+                    axfr: case["axfr"].as_bool().unwrap_or(false),
                 };
                 let cat = build_catalog(&z);
                 if case["huge"].as_bool() == Some(true) {
@@ -658,12 +660,12 @@ fn main() {
     let nrecs: Vec<usize> = if thorough { (1..=60).collect() } else { vec![1, 2, 3, 5, 8, 13, 20, 27, 28, 29, 30, 31, 32, 40] };
     for &nrec in &nrecs {
         for signed in [false, true] {
-            zones.push(SrvZone { nrec, big: false, nns: if nrec % 2 == 0 { 3 } else { 0 }, signed });
+            zones.push(SrvZone { nrec, big: false, nns: if nrec % 2 == 0 { 3 } else { 0 }, signed, axfr: false });
         }
     }
     for nrec in if thorough { vec![1, 2, 3, 4, 5, 8, 16, 17, 40] } else { vec![1, 2, 4, 5] } {
         for signed in [false, true] {
-            zones.push(SrvZone { nrec, big: true, nns: 12, signed });
+            zones.push(SrvZone { nrec, big: true, nns: 12, signed, axfr: false });
         }
     }
     ctx.set("server_zones", json!(zones.len()));
@@ -691,7 +693,7 @@ fn main() {
         },
     );
     // responses above 64 KiB
-    let huge: Vec<SrvZone> = [250usize, 256, 300].iter().map(|&nrec| SrvZone { nrec, big: true, nns: 0, signed: false }).collect();
+    let huge: Vec<SrvZone> = [250usize, 256, 300].iter().map(|&nrec| SrvZone { nrec, big: true, nns: 0, signed: false, axfr: false }).collect();
     ctx.par_run_init(
         huge.len() as u64 * 2,
         1,
@@ -702,6 +704,102 @@ fn main() {
             run_srv_huge(z, &cat, i % 2 == 1, rt, l);
         },
     );
+
+    // (c) zone transfers and error responses: whatever the server sends must respect the
+    //     transport limit and be well-formed (the differential oracle does not apply: an AXFR
+    //     answer has no "complete" counterpart once the zone exceeds one message)
+    let mut xzones = vec![];
+    for nrec in if thorough { (1..=280).step_by(3).collect::<Vec<_>>() } else { vec![1, 5, 40, 200, 240, 250, 256, 260, 280] } {
+        for big in [false, true] {
+            for signed in [false, true] {
+                if signed && nrec > 60 {
+                    continue; // signing hundreds of TXT records only costs time
+                }
+                xzones.push(SrvZone { nrec, big, nns: 2, signed, axfr: true });
+            }
+        }
+    }
+    ctx.set("axfr_zones", json!(xzones.len()));
+    ctx.par_run_init(
+        xzones.len() as u64,
+        1,
+        |_| vsim::rt(),
+        |i, l, rt| {
+            let z = &xzones[i as usize];
+            let cat = build_catalog(z);
+            for (qname, qtype) in [("z.", RecordType::AXFR), ("z.", RecordType::ANY), ("r.z.", RecordType::ANY), ("out.o.", RecordType::A)] {
+                for payload in [-1i32, 512, 1232, 65535] {
+                    for tcp in [false, true] {
+                        l.eval();
+                        let qname: &'static str = qname;
+                        let q = SrvQuery { name: qname, qtype, dnssec_ok: z.signed };
+                        let req = request_bytes(&q, payload);
+                        let proto = if tcp { Protocol::Tcp } else { Protocol::Udp };
+                        let wit = || {
+                            let mut j = srv_json(z, &q, payload);
+                            j["multi"] = json!(true);
+                            j["tcp"] = json!(tcp);
+                            j
+                        };
+                        let msgs = match catch(|| rt.block_on(vsim::serve(&cat, &req, proto))) {
+                            Err(p) => {
+                                l.violation(&format!("server-panic:{}", vcore::short_loc(&p.loc)), &p.msg, wit);
+                                continue;
+                            }
+                            Ok(None) => continue,
+                            Ok(Some(m)) => m,
+                        };
+                        let limit = if tcp { 65535 } else { payload.max(512) as usize };
+                        for b in &msgs {
+                            if b.len() > limit {
+                                l.violation(
+                                    if tcp { "server-over-limit:tcp" } else { "server-over-limit:udp" },
+                                    &format!("{} bytes sent for {:?}, limit {}", b.len(), qtype, limit),
+                                    wit,
+                                );
+                                break;
+                            }
+                            if let Err((k, what)) = well_formed(b) {
+                                l.violation(&format!("{k}:{}", if qtype == RecordType::AXFR { "axfr" } else { "other" }), &what, wit);
+                                break;
+                            }
+                        }
+                        l.outcome(if msgs.len() == 1 { "multi:one-message" } else { "multi:several-or-none" });
+                        if msgs.iter().any(|b| b.len() > 4096) {
+                            l.nontrivial(fnv64(format!("{z:?}{qname}{qtype}{payload}{tcp}").as_bytes()));
+                        }
+                    }
+                }
+            }
+        },
+    );
+
+    // (d) large messages through the plain encoder: k copies of a 300-byte TXT record (up to
+    //     ~84 KiB) under the limits around every multiple of the record size near 64 KiB
+    let big_alpha = alphabet(true);
+    let ks: Vec<usize> = if thorough { (1..=280).collect() } else { vec![1, 2, 50, 100, 200, 210, 215, 216, 217, 218, 219, 220, 230, 280] };
+    ctx.par_run(ks.len() as u64, 1, |i, l| {
+        let k = ks[i as usize];
+        let case = Case { an: vec![7; k], ns: vec![0], ar: vec![6], edns: true, tsig: k % 2 == 0, tc: false };
+        let m = case.build(&big_alpha);
+        let full_len = 12 + 21 + k * 311;
+        let mut limits: Vec<u32> = vec![512, 4096, 16383, 16384, 16385, 32768, 65535];
+        for d in 0..=4u32 {
+            limits.push(65535 - d);
+            if full_len as u32 + d <= 65535 {
+                limits.push(full_len as u32 + d);
+            }
+            if full_len as u32 > d {
+                limits.push((full_len as u32 - d).min(65535));
+            }
+        }
+        limits.sort();
+        limits.dedup();
+        let _ = m;
+        for lim in limits {
+            run_case(&case, lim as u16, &big_alpha, l);
+        }
+    });
 
     if ctx.outcome_count("truncated") == 0 || ctx.outcome_count("server-truncated") == 0 {
         ctx.machinery_failure("vacuous run: no truncation was exercised");
